@@ -2,7 +2,7 @@
 //! can compare exact rational expectations with the library's floats.
 //!
 //! `rat(x)` returns the reduced fraction p/q with the smallest q <= QMAX such that
-//! |x - p/q| <= TOL * max(1, |x|).  Two distinct fractions with denominators
+//! |x - p/q| <= TOL (absolute).  Two distinct fractions with denominators
 //! <= QMAX differ by at least 1/QMAX^2 = 1e-10 > 2*TOL, so when the true value is
 //! a fraction with denominator <= QMAX and the float is within TOL of it the
 //! reconstruction is exact and unique; a float that is off by more than TOL maps
@@ -12,7 +12,8 @@
 use serde_json::{json, Value};
 
 pub const QMAX: i64 = 100_000;
-pub const TOL: f64 = 1.0e-11;
+/// absolute tolerance; must stay below 1/(2*QMAX^2) = 5e-11 for the reconstruction to be unique
+pub const TOL: f64 = 4.0e-11;
 
 pub fn rat_pq(x: f64) -> (i64, i64) {
     if x.is_nan() {
@@ -26,7 +27,7 @@ pub fn rat_pq(x: f64) -> (i64, i64) {
     if ax > 2.0e9 {
         return (if neg { -2_000_000_000 } else { 2_000_000_000 }, -1);
     }
-    let tol = TOL * ax.max(1.0);
+    let tol = TOL;
     // continued fraction convergents
     let (mut p0, mut q0, mut p1, mut q1) = (0i64, 1i64, 1i64, 0i64);
     let mut r = ax;
